@@ -436,30 +436,30 @@ func checkC05(tier string) int {
 		"distinct_nontrivial": len(shapes),
 		"rule": "one evaluation = one execution of a program compiled by the real kddp (scanner..LLVM..gcc link) on the simulated heap under one (build configuration, heap policy) drawn from VERIF_SEED; " +
 			"distinct_nontrivial = distinct (program, #allocs, #resizes, max live bytes, #ledger events) shapes with at least one allocation",
-		"samples":                 samples,
-		"builds":                  len(outs),
-		"corpus_programs":         len(progs),
-		"generated_programs":      nGen,
-		"generated_rejected":      genRejected,
-		"terminated_normally":     normal,
+		"samples":                   samples,
+		"builds":                    len(outs),
+		"corpus_programs":           len(progs),
+		"generated_programs":        nGen,
+		"generated_rejected":        genRejected,
+		"terminated_normally":       normal,
 		"terminated_laufzeitfehler": rterr,
-		"timeouts":                timeouts,
-		"resource_limited":        resourceLimited,
-		"ledger_events_total":     events,
-		"realloc_moved":           moved,
-		"realloc_in_place":        inplace,
-		"blocks_reused":           reused,
-		"policy_knobs_fired":      fired,
-		"runs_per_hour":           perHour(execs, simWall),
-		"seeds_per_hour":          perHour(1, time.Since(startT)),
-		"simulated_time_s":        0,
-		"simulated_time_note":     "compiled programs in the workloads read no clock; the heap is the simulated component",
-		"event_log_sha256":        hex.EncodeToString(evHash.Sum(nil)),
-		"violation_groups":        len(groups),
-		"violation_groups_known":  len(groups) - newViol,
-		"components_real":         []string{"kddp (scanner, parser, typechecker, IR generation, LLVM 14, linker package)", "gcc/ld", "lib/runtime C sources", "lib/stdlib C sources (except " + strings.Join(tc.Skipped, ", ") + ")", "Duden .ddp sources"},
-		"components_simulated":    []string{"libc realloc/free below ddp_reallocate (simheap arena: guard pages, canaries, quarantine, seeded fill/move/reuse)", "setlocale fallback to C.utf8 (de_DE.UTF-8 is not installed in this image)", "libpcre2/libarchive/libz/liblzma/libbz2/liblz4 are empty stub archives"},
-		"exhaustive":              false,
+		"timeouts":                  timeouts,
+		"resource_limited":          resourceLimited,
+		"ledger_events_total":       events,
+		"realloc_moved":             moved,
+		"realloc_in_place":          inplace,
+		"blocks_reused":             reused,
+		"policy_knobs_fired":        fired,
+		"runs_per_hour":             perHour(execs, simWall),
+		"seeds_per_hour":            perHour(1, time.Since(startT)),
+		"simulated_time_s":          0,
+		"simulated_time_note":       "compiled programs in the workloads read no clock; the heap is the simulated component",
+		"event_log_sha256":          hex.EncodeToString(evHash.Sum(nil)),
+		"violation_groups":          len(groups),
+		"violation_groups_known":    len(groups) - newViol,
+		"components_real":           []string{"kddp (scanner, parser, typechecker, IR generation, LLVM 14, linker package)", "gcc/ld", "lib/runtime C sources", "lib/stdlib C sources (except " + strings.Join(tc.Skipped, ", ") + ")", "Duden .ddp sources"},
+		"components_simulated":      []string{"libc realloc/free below ddp_reallocate (simheap arena: guard pages, canaries, quarantine, seeded fill/move/reuse)", "setlocale fallback to C.utf8 (de_DE.UTF-8 is not installed in this image)", "libpcre2/libarchive/libz/liblzma/libbz2/liblz4 are empty stub archives"},
+		"exhaustive":                false,
 	}
 	ev.Assumptions = []string{
 		"allocation failure is not injected: no listed property says what must hold after realloc returns NULL",
